@@ -12,6 +12,7 @@ Inductive xevent :=
 | XDelete (b0 b1 : name) (before : list name) (outs : fsys) (after : list name)
 | XRestart (rot0 now0 : name)
 | XWriteHold (r : record) (now : name)   (* held-compress stream: the compress phase waits for XGzip *)
+| XRemove (n : name)                      (* somebody removes a directory entry (with its content) *)
 | XGzip.                                 (* the oldest held compress phase runs *)
 
 Record case := mkcase {
@@ -48,8 +49,24 @@ Definition fs_eqb (a b : fsys) : bool :=
 Definition obstacle (n : name) (fs : fsys) : bool :=
   match fs_get n fs with Some (_, d) => (77 <=? d)%nat | None => false end.
 
-Definition write_and_compress (c : config) (s : state) (r : record) (now : name) : state :=
-  let s' := step c s (EWrite r now) in
+(* A rotation whose os.Rename fails (a non-empty directory, layer count 79, sits at the backup name) is an I/O
+   error outside Model.rotate and the theorems. What the code does is pinned here: rotate :338-352 has closed
+   l.fp and set it to nil before the rename; on the error it returns without reopening, write :323-333 then skips
+   the record (reopen = false: HEAD). The rotation is retried with the next record. reopen = true describes a
+   rotate that reopens the current file on failure: the record is appended, nothing else changes. *)
+Definition rename_blocked (c : config) (s : state) (r : record) (now : name) : bool :=
+  shall_rotate c (s_rot s) now (s_size s + rlen r) && fs_exists (c_file c) (s_fs s) &&
+  match fs_get (s_backup s) (s_fs s) with Some (_, d) => Nat.eqb d 79 | None => false end.
+
+Definition write_x (reopen : bool) (c : config) (s : state) (r : record) (now : name) : state :=
+  if rename_blocked c s r now then
+    if reopen
+    then mkst (fs_append (c_file c) r (s_fs s)) true (s_backup s) (s_size s + rlen r) (s_rot s) (s_posts s) (s_removed s)
+    else mkst (s_fs s) false (s_backup s) (s_size s) (s_rot s) (s_posts s) (s_removed s)
+  else step c s (EWrite r now).
+
+Definition write_and_compress (reopen : bool) (c : config) (s : state) (r : record) (now : name) : state :=
+  let s' := write_x reopen c s r now in
   let k := List.length (s_posts s) in
   match nth_error (s_posts s') k with
   | Some (f, _) =>
@@ -90,34 +107,37 @@ Definition delete_ok (c : config) (s : state) (k : nat) (b : name) (before : lis
      names_eqb (ls (s_fs s')) after
   then Some s' else None.
 
-Fixpoint model_run (c : config) (s : state) (evs : list xevent) : option state :=
+Fixpoint model_run (reopen : bool) (c : config) (s : state) (evs : list xevent) : option state :=
   match evs with
   | [] => Some s
-  | XWrite r now :: rest => model_run c (write_and_compress c s r now) rest
-  | XRestart rot0 now0 :: rest => model_run c (step c s (ERestart rot0 now0)) rest
-  | XWriteHold r now :: rest => model_run c (step c s (EWrite r now)) rest
-  | XGzip :: rest => match gzip_oldest c s with Some s' => model_run c s' rest | None => None end
+  | XWrite r now :: rest => model_run reopen c (write_and_compress reopen c s r now) rest
+  | XRemove n :: rest =>
+      model_run reopen c (mkst (fs_remove n (s_fs s)) (s_fp s) (s_backup s) (s_size s) (s_rot s) (s_posts s) (s_removed s)) rest
+  | XRestart rot0 now0 :: rest => model_run reopen c (step c s (ERestart rot0 now0)) rest
+  | XWriteHold r now :: rest => model_run reopen c (write_x reopen c s r now) rest
+  | XGzip :: rest => match gzip_oldest c s with Some s' => model_run reopen c s' rest | None => None end
   | XDelete b0 b1 before outs after :: rest =>
       match first_phase1 (s_posts s) 0 with
       | None => None
       | Some k =>
           match delete_ok c s k b0 before outs after with
-          | Some s' => model_run c s' rest
+          | Some s' => model_run reopen c s' rest
           | None =>
               match delete_ok c s k b1 before outs after with
-              | Some s' => model_run c s' rest
+              | Some s' => model_run reopen c s' rest
               | None => None
               end
           end
       end
   end.
 
-Definition model_ok (k : case) : bool :=
+Definition model_ok_with (reopen : bool) (k : case) : bool :=
   let c := k_cfg k in
-  match model_run c (init c (k_seeds k) (k_rot0 k) (k_now0 k)) (k_events k) with
+  match model_run reopen c (init c (k_seeds k) (k_rot0 k) (k_now0 k)) (k_events k) with
   | Some s => fs_eqb (s_fs s) (k_final k)
   | None => false
   end.
+Definition model_ok (k : case) : bool := model_ok_with false k || model_ok_with true k.
 
 (* ---- the property on the observations alone *)
 Definition wrecs (evs : list xevent) : content :=
@@ -174,6 +194,8 @@ Definition overshoot_ok (k : case) (w : content) (all : fsys) : bool :=
   match c_kind c with
   | Daily => true
   | SizeLimit =>
+      (* while a rotation cannot be carried out (rename blocked by a non-empty directory) the file has to grow *)
+      if existsb (fun f => Nat.eqb (snd (snd f)) 79) (k_seeds k) then true else
       if 0 <? c_max_size c then
         forallb (fun f => match w_part w f with
                           | [] => true
